@@ -482,3 +482,25 @@ func (s *Session) Journal(c any) {
 	}
 	_ = os.WriteFile(s.OutPath+".journal", raw, 0o644)
 }
+
+// NontrivialHash records a non-trivial case by a hash computed elsewhere (driver side).
+func (s *Session) NontrivialHash(hex string) {
+	h, err := strconv.ParseUint(hex, 16, 64)
+	if err != nil {
+		return
+	}
+	s.mu.Lock()
+	s.nontriv[h] = struct{}{}
+	s.mu.Unlock()
+}
+
+// Sample keeps a few sample cases.
+func (s *Session) Sample(v any) {
+	s.mu.Lock()
+	if len(s.first) < 3 {
+		s.first = append(s.first, v)
+	} else if len(s.low) < 2 {
+		s.low = append(s.low, lowSample{0, v})
+	}
+	s.mu.Unlock()
+}
